@@ -287,6 +287,7 @@ def run(ctx):
         from vlib import concsaves
         for kind, nt, per in (('memory', 2, 2), ('file', 2, 1), ('file', 3, 1), ('memory', 3, 1)):
             concsaves.explore(ctx, kind, nt, per, judge_concurrent, ctx.quick)
+        concsaves.explore_resave_fetch(ctx, ctx.quick)
     n = ctx.budget(300, 10000)
     base = ctx.seed * 1000003 + ctx.shard * 100000
     for i in range(n):
